@@ -158,6 +158,48 @@ Theorem C19_bind_positional :
 Proof. exact bind_positional. Qed.
 Print Assumptions C19_bind_positional.
 
+(* Every call form (strengthening round 1).  The call `f(p1, .., pk, n1 = v1, ..)` with positional texts `pos` and
+   keyword dictionary `kw` (distinct keys, all of them parameters; not more positionals than parameters; every
+   parameter without keyword has a positional at ITS OWN index) binds each parameter to its keyword argument if
+   there is one and else to the positional argument at the parameter's index — whatever the order of the
+   keywords, and also when a parameter has both (the keyword wins: what the code does). *)
+Theorem C19_bind_general :
+  forall params pos kw,
+    NoDup params -> NoDup (map fst kw) ->
+    (length pos <= length params)%nat ->
+    (forall k, In k (map fst kw) -> In k params) ->
+    (forall j p, nth_error params j = Some p -> kw_get p kw = None -> (j < length pos)%nat) ->
+    bind params pos kw = BOk (expected_bind 0 params pos kw).
+Proof. exact bind_general. Qed.
+Print Assumptions C19_bind_general.
+
+(* ---------------------------------------------------------------- @lazy argument -> text *)
+
+(* What is substituted for a parameter is the text rebuilt from the argument's tokens (Model/Lazy.v: arg_text =
+   merge_tokens(.., use_full_string=True)).  It does not depend on the call form: a keyword argument gets the text
+   the same tokens get as a positional argument (HRepaired = with fixes/C19-lazy-keyword-arrow-function.patch). *)
+Theorem C19_arg_text_form_independent :
+  forall toks, arg_text HRepaired true toks = arg_text HRepaired false toks.
+Proof. exact arg_text_form_independent. Qed.
+Print Assumptions C19_arg_text_form_independent.
+
+(* the code before that fix: an arrow function lost its head `(i)=>` as a keyword argument and its parameter
+   list as a positional argument *)
+Theorem C19_arg_text_pinned_refuted :
+  exists toks, arg_text HPinned true toks <> arg_text HPinned false toks /\
+               arg_text HPinned false toks <> arg_text HRepaired false toks.
+Proof. exact arg_text_pinned_refuted. Qed.
+Print Assumptions C19_arg_text_pinned_refuted.
+
+(* A string-literal argument is written as a literal (Python's repr of the decoded content, quotes included) that
+   the function-content tokenizer (ast.literal_eval; py_unquote models it on the escapes repr produces) reads
+   back as exactly the same string: `$p` stands for the string the caller wrote, in either call form.
+   (py_repr is CPython's repr on the characters 9, 10, 13, 32..126; the tie excludes anything else.) *)
+Theorem C19_arg_string_roundtrip :
+  forall m is_kw s, py_unquote (arg_text m is_kw [AStr false s]) = Some s.
+Proof. exact lazy_string_argument_roundtrip. Qed.
+Print Assumptions C19_arg_string_roundtrip.
+
 (* ---------------------------------------------------------------- non-vacuity *)
 
 Example C19_nonvacuous :
@@ -165,5 +207,11 @@ Example C19_nonvacuous :
   iprint (IBin IMod (IBin IFloorDiv (INeg (INum 7)) (INum 2)) (INeg (INum 3))) = "(((-7)\2)%(-3))"%string /\
   py_range 3 (-4) (-3) = [3; 0; -3]%Z /\
   until_err (repeat_texts HRepaired [("N", "5")]%string "{ say ""$i Hardcode.calc($i*N)""; }" "i" 0 2 1)
-    = (["{ say ""0 0""; }"; "{ say ""1 5""; }"]%string, None).
+    = (["{ say ""0 0""; }"; "{ say ""1 5""; }"]%string, None) /\
+  (* f(7, c = "it's", a = @a[tag=x]) for f(a, b, c): hypotheses of C19_bind_general hold; keyword wins over position *)
+  bind_toks HRepaired ["a"; "b"; "c"]%string [[AOther "7"]; [AOther "8"]]%string
+            [("c", [AStr false "it's"]); ("a", [AOther "@a"; AParen "[tag=x]"])]%string
+    = BOk [("a", "@a[tag=x]"); ("b", "8"); ("c", """it's""")]%string /\
+  arg_text HRepaired true [AFunc "(i)" "{ say 1; }"]%string = "(i)=>{ say 1; }"%string /\
+  py_repr "a'b""c" = "'a\'b""c'"%string.
 Proof. vm_compute. repeat split; reflexivity. Qed.
